@@ -123,11 +123,6 @@ def handleFormula : List String → Option String
   | ["read", t] => do
     let t ← parseText t
     pure ("ok " ++ showOptPT (readText t))
-  | ["lex", t] => do
-    let t ← parseText t
-    pure (match lex t with
-      | some ts => s!"ok {ts.length}"
-      | none => "ok none")
   -- what the stored tree denotes, whether it satisfies the hypotheses of `read_render`, and whether the
   -- model's own text is read back to it
   | "canon" :: ws => do
